@@ -382,16 +382,33 @@ def mixed_stabilizer_equivalency(stab1, stab2):
             stab2_copy = copy.deepcopy(stab2)
             for p_i, s_i in stab1:
                 for q_i, t_i in stab2_copy:
-                    if np.equal(p_i, q_i) and s_i == t_i:
+                    if np.equal(p_i, q_i) and _same_stabilizer_state(s_i, t_i):
                         stab2_copy.remove((q_i, t_i))
                         break
             return len(stab2_copy) == 0
         else:
             return False
     elif isinstance(stab1, StabilizerTableau) and isinstance(stab2, StabilizerTableau):
-        return stab1 == stab2
+        return _same_stabilizer_state(stab1, stab2)
     else:
         return False
+
+
+def _same_stabilizer_state(stab1, stab2):
+    """
+    Check whether two stabilizer tableaux describe the same state, i.e. generate the same stabilizer group
+    (two generating sets of one state need not be equal row by row)
+
+    :param stab1: the first stabilizer tableau
+    :type stab1: StabilizerTableau
+    :param stab2: the second stabilizer tableau
+    :type stab2: StabilizerTableau
+    :return: True if the two tableaux describe the same state
+    :rtype: bool
+    """
+    if stab1.n_qubits != stab2.n_qubits:
+        return False
+    return canonical_form(stab1.copy()) == canonical_form(stab2.copy())
 
 
 def state_to_graph(state):
